@@ -441,6 +441,10 @@ func (res *Resource) Purge(keepExtra int) { //nolint:gocognit
 		keepExtra = 2
 	}
 
+	// The boundary search relies on the versions being sorted newest first,
+	// which is only guaranteed directly after a version selection.
+	sort.Sort(res)
+
 	// Search for purge boundary.
 	var purgeBoundary int
 	var skippedActiveVersion bool
